@@ -15,6 +15,15 @@ theorem gated_of_not_done (h : Host) (hd : h.done = false) (o : List Out) : gate
 theorem wakeRaises_suppressed (r d : Bool) : wakeRaises Gen.Shutdown.close_wait_suppresses_not_running r d = false := by
   simp [wakeRaises, close_wait_suppresses_not_running_holds]
 
+theorem cleanupAfterClose_eq (a : Bool) : cleanupAfterClose a = false := by
+  simp [cleanupAfterClose, engine_close_cancels_cleanup_holds]
+
+theorem transportsAfterShutdown_eq (c : Bool) : transportsAfterShutdown c = true := by
+  simp only [transportsAfterShutdown, shutdown_closes_transports_holds, ↓reduceIte]
+
+theorem tcsAfterConnectionLost_eq (l : List Nat) : tcsAfterConnectionLost l = l := by
+  simp [tcsAfterConnectionLost, connection_lost_is_noop_holds]
+
 theorem gated_sub (h : Host) (l : List Out) : gated h l = [] ∨ gated h l = l := by
   unfold gated
   split
@@ -121,7 +130,7 @@ theorem WFc_aborted (h : Host) (s : Bool) : WFc h ⟨s, .aborted⟩ := by simp [
 
 theorem step_summary (h : Host) (b : Block) (h' : Host) (o : List Out) (hw : WF h) (hs : step h b = some (h', o)) : Summary h h' := by
   cases b with
-  | recv s q d u =>
+  | recv s q d u da =>
     simp only [step] at hs
     split at hs
     · simp at hs
@@ -135,7 +144,17 @@ theorem step_summary (h : Host) (b : Block) (h' : Host) (o : List Out) (hw : WF 
     · simp only [Option.some.injEq, Prod.mk.injEq] at hs
       obtain ⟨rfl, _⟩ := hs
       exact Summary.same rfl rfl rfl rfl
-  | tcFire s q =>
+  | tcFire s q ti =>
+    simp only [step] at hs
+    split at hs
+    · simp at hs
+    · simp only [Option.some.injEq, Prod.mk.injEq] at hs
+      obtain ⟨rfl, _⟩ := hs
+      exact Summary.same rfl rfl rfl rfl
+    · simp only [Option.some.injEq, Prod.mk.injEq] at hs
+      obtain ⟨rfl, _⟩ := hs
+      exact Summary.same rfl rfl rfl rfl
+  | connectionLost =>
     simp only [step] at hs
     split at hs
     · simp at hs
@@ -199,6 +218,10 @@ theorem step_summary (h : Host) (b : Block) (h' : Host) (o : List Out) (hw : WF 
         · simp only [Option.some.injEq, Prod.mk.injEq] at hs
           obtain ⟨rfl, _⟩ := hs
           exact Summary.same rfl rfl rfl rfl
+  | apiBrowse tr rp =>
+    simp only [step, Option.some.injEq, Prod.mk.injEq] at hs
+    obtain ⟨rfl, _⟩ := hs
+    exact Summary.same rfl rfl rfl rfl
   | closeCall sync =>
     simp only [step] at hs
     split at hs
@@ -285,19 +308,19 @@ theorem step_summary (h : Host) (b : Block) (h' : Host) (o : List Out) (hw : WF 
     · rename_i hi
       simp only [Option.some.injEq, Prod.mk.injEq] at hs
       obtain ⟨rfl, _⟩ := hs
-      refine ⟨fun _ => rfl, fun _ => rfl, id, ?_, fun x => any_set_of_not _ i _ _ hi rfl x⟩
+      refine ⟨fun _ => rfl, fun _ => transportsAfterShutdown_eq h.transportsClosed, id, ?_, fun x => any_set_of_not _ i _ _ hi rfl x⟩
       intro c hc
       rcases mem_setStage hc with rfl | hm
-      · exact Or.inr (by simp [WFc])
+      · exact Or.inr (by simp [WFc, transportsAfterShutdown_eq])
       · exact Or.inl hm
     · rename_i hi
       simp only [Option.some.injEq, Prod.mk.injEq] at hs
       obtain ⟨rfl, _⟩ := hs
       have hd : h.done = true := (hw _ (List.mem_of_getElem? hi)).1 rfl
-      refine ⟨id, fun _ => rfl, id, ?_, fun x => any_set_of_not _ i _ _ hi rfl x⟩
+      refine ⟨id, fun _ => transportsAfterShutdown_eq h.transportsClosed, id, ?_, fun x => any_set_of_not _ i _ _ hi rfl x⟩
       intro c hc
       rcases mem_setStage hc with rfl | hm
-      · exact Or.inr ⟨by simp, fun _ => ⟨hd, rfl⟩, by simp⟩
+      · exact Or.inr ⟨by simp, fun _ => ⟨hd, transportsAfterShutdown_eq h.transportsClosed⟩, by simp⟩
       · exact Or.inl hm
     · simp at hs
   | closeFinish i =>
@@ -307,10 +330,10 @@ theorem step_summary (h : Host) (b : Block) (h' : Host) (o : List Out) (hw : WF 
       simp only [Option.some.injEq, Prod.mk.injEq] at hs
       obtain ⟨rfl, _⟩ := hs
       obtain ⟨hd, ht⟩ := (hw _ (List.mem_of_getElem? hi)).2.1 rfl
-      refine ⟨id, id, fun _ => rfl, ?_, fun x => any_set_of_not _ i _ _ hi rfl x⟩
+      refine ⟨id, id, fun _ => cleanupAfterClose_eq h.cleanupArmed, ?_, fun x => any_set_of_not _ i _ _ hi rfl x⟩
       intro c hc
       rcases mem_setStage hc with rfl | hm
-      · exact Or.inr ⟨by simp, by simp, fun _ => ⟨hd, ht, rfl⟩⟩
+      · exact Or.inr ⟨by simp, by simp, fun _ => ⟨hd, ht, cleanupAfterClose_eq h.cleanupArmed⟩⟩
       · exact Or.inl hm
     · simp at hs
   | closeAbort i =>
@@ -413,6 +436,10 @@ theorem noCompletion_registry (h : Host) (b : Block) (hb : b.noCompletion = true
       · simp only [Bool.false_eq_true, ↓reduceIte, Option.some.injEq, Prod.mk.injEq] at hs
         obtain ⟨rfl, _⟩ := hs
         exact hr
+  | apiBrowse tr rp =>
+    simp only [step, Option.some.injEq, Prod.mk.injEq] at hs
+    obtain ⟨rfl, _⟩ := hs
+    exact hr
   | closeCall sync =>
     simp only [step] at hs
     split at hs
@@ -439,7 +466,7 @@ theorem noCompletion_registry (h : Host) (b : Block) (hb : b.noCompletion = true
             obtain ⟨rfl, _⟩ := hs
             simp [closeBody, Host.setStage]
     · simp at hs
-  | recv s q d u =>
+  | recv s q d u da =>
     simp only [step] at hs
     split at hs
     · simp at hs
@@ -453,7 +480,17 @@ theorem noCompletion_registry (h : Host) (b : Block) (hb : b.noCompletion = true
     · simp only [Option.some.injEq, Prod.mk.injEq] at hs
       obtain ⟨rfl, _⟩ := hs
       exact hr
-  | tcFire s q =>
+  | tcFire s q ti =>
+    simp only [step] at hs
+    split at hs
+    · simp at hs
+    · simp only [Option.some.injEq, Prod.mk.injEq] at hs
+      obtain ⟨rfl, _⟩ := hs
+      exact hr
+    · simp only [Option.some.injEq, Prod.mk.injEq] at hs
+      obtain ⟨rfl, _⟩ := hs
+      exact hr
+  | connectionLost =>
     simp only [step] at hs
     split at hs
     · simp at hs
@@ -584,7 +621,7 @@ theorem mid_step (h : Host) (b : Block) (hb : b.mid = true) (nog : ∀ i, b ≠ 
   have hbody : ∀ s, count isGoodbye (closeBody h s).2.1 = 0 := by
     intro s; simp [closeBody, hreg, count]
   cases b with
-  | recv s q d u =>
+  | recv s q d u da =>
     simp only [step] at hs
     split at hs
     · simp at hs
@@ -600,13 +637,23 @@ theorem mid_step (h : Host) (b : Block) (hb : b.mid = true) (nog : ∀ i, b ≠ 
       obtain ⟨rfl, rfl⟩ := hs
       refine ⟨rfl, rfl, hreg, h0, gated_no_goodbye h _ ?_⟩
       split <;> simp [count, isGoodbye]
-  | tcFire s q =>
+  | tcFire s q ti =>
     simp only [step] at hs
     split at hs
     · simp at hs
     · simp only [Option.some.injEq, Prod.mk.injEq] at hs
       obtain ⟨rfl, rfl⟩ := hs
+      exact ⟨rfl, rfl, hreg, h0, rfl⟩
+    · simp only [Option.some.injEq, Prod.mk.injEq] at hs
+      obtain ⟨rfl, rfl⟩ := hs
       exact ⟨rfl, rfl, hreg, h0, gated_no_goodbye h _ (count_replicate_send s)⟩
+  | connectionLost =>
+    simp only [step] at hs
+    split at hs
+    · simp at hs
+    · simp only [Option.some.injEq, Prod.mk.injEq] at hs
+      obtain ⟨rfl, rfl⟩ := hs
+      exact ⟨rfl, rfl, hreg, h0, rfl⟩
   | schedFire i q =>
     simp only [step] at hs
     split at hs
@@ -670,6 +717,13 @@ theorem mid_step (h : Host) (b : Block) (hb : b.mid = true) (nog : ∀ i, b ≠ 
         · simp only [Option.some.injEq, Prod.mk.injEq] at hs
           obtain ⟨rfl, rfl⟩ := hs
           exact ⟨rfl, rfl, hreg, h0, rfl⟩
+  | apiBrowse tr rp =>
+    simp only [step, Option.some.injEq, Prod.mk.injEq] at hs
+    obtain ⟨rfl, rfl⟩ := hs
+    refine ⟨rfl, rfl, hreg, h0, ?_⟩
+    induction rp with
+    | zero => rfl
+    | succ k ih => simp_all [count, List.replicate_succ, isGoodbye]
   | closeCall sync =>
     simp only [step] at hs
     split at hs
@@ -749,5 +803,192 @@ theorem mid_run (bs : List Block) (hb : ∀ b ∈ bs, b.mid3 = true) (c0 : Close
     obtain ⟨a1, a2, a3, a4, a5⟩ := mid_step h b hb1.1 nog c0 h0 hreg s1 o1 h1
     obtain ⟨b1, b2, b3, b4, b5⟩ := ih (fun x hx => hb x (by simp [hx])) s1 h' o2 h2 a4 a3
     exact ⟨b1.trans a1, b2.trans a2, b3, b4, by rw [count_append, a5, b5]⟩
+
+/-! ### timers that outlive a close: the TC deferral timers -/
+
+theorem tcs_step (h : Host) (b : Block) (h' : Host) (o : List Out) (hs : step h b = some (h', o)) :
+    h'.tcs = h.tcs ∨ (∃ i, h'.tcs = deferOne h.tcs i) ∨ (∃ i, h'.tcs = h.tcs.eraseIdx i) := by
+  cases b <;> simp only [step] at hs <;> (repeat' split at hs) <;>
+    first
+    | (simp at hs; done)
+    | (simp only [Option.some.injEq, Prod.mk.injEq] at hs
+       obtain ⟨rfl, _⟩ := hs
+       first
+       | exact Or.inl rfl
+       | exact Or.inl (tcsAfterConnectionLost_eq _)
+       | exact Or.inr (Or.inl ⟨_, rfl⟩)
+       | exact Or.inr (Or.inr ⟨_, rfl⟩)
+       | (simp only [closeBody, Host.setStage]; exact Or.inl rfl))
+
+theorem deferOne_pos (l : List Nat) (i : Nat) (hl : ∀ n ∈ l, 0 < n) : ∀ n ∈ deferOne l i, 0 < n := by
+  intro n hn
+  unfold deferOne at hn
+  split at hn
+  · rw [List.mem_iff_getElem?] at hn
+    obtain ⟨j, hj⟩ := hn
+    rw [List.getElem?_modify] at hj
+    cases hlj : l[j]? with
+    | none => simp [hlj] at hj
+    | some v =>
+      have hv := hl v (List.mem_of_getElem? hlj)
+      simp [hlj] at hj
+      rw [← hj]
+      split <;> omega
+  · simp only [List.mem_append, List.mem_singleton] at hn
+    rcases hn with hn | rfl
+    · exact hl n hn
+    · omega
+
+/-- `TcInv` is preserved by every block: arrivals only add packets, a firing timer removes its own entry, and
+`connection_lost` touches nothing (translated leaf) -/
+theorem TcInv_step (h : Host) (b : Block) (h' : Host) (o : List Out) (hi : TcInv h) (hs : step h b = some (h', o)) : TcInv h' := by
+  rcases tcs_step h b h' o hs with e | ⟨i, e⟩ | ⟨i, e⟩
+  · intro n hn; exact hi n (e ▸ hn)
+  · intro n hn; rw [e] at hn; exact deferOne_pos _ _ hi n hn
+  · intro n hn; rw [e] at hn; exact hi n (List.mem_of_mem_eraseIdx hn)
+
+theorem TcInv_run (bs : List Block) : ∀ (h h' : Host) (o : List Out), TcInv h → run h bs = some (h', o) → TcInv h' := by
+  induction bs with
+  | nil =>
+    intro h h' o hi hr
+    simp only [run, Option.some.injEq, Prod.mk.injEq] at hr
+    obtain ⟨rfl, _⟩ := hr
+    exact hi
+  | cons b rest ih =>
+    intro h h' o hi hr
+    obtain ⟨s1, o1, o2, h1, h2, _⟩ := run_cons h b rest h' o hr
+    exact ih s1 h' o2 (TcInv_step h b s1 o1 hi h1) h2
+
+theorem not_loopError_gated (h : Host) (l : List Out) (hl : Out.loopError ∉ l) : Out.loopError ∉ gated h l := by
+  rcases gated_sub h l with g | g <;> rw [g]
+  · simp
+  · exact hl
+
+theorem not_loopError_replicate (n : Nat) (x : Out) (hx : x ≠ .loopError) : Out.loopError ∉ List.replicate n x := by
+  intro hm
+  exact hx (List.eq_of_mem_replicate hm).symm
+
+theorem not_loopError_notify (h : Host) (u : Bool) : Out.loopError ∉ notify h u := by
+  intro hm
+  unfold notify at hm
+  split at hm
+  · simp only [List.mem_append, List.mem_map, List.mem_replicate] at hm
+    rcases hm with ⟨_, _, hh⟩ | ⟨_, hh⟩ <;> cases hh
+  · simp at hm
+
+theorem loopError_site (h : Host) (b : Block) (h' : Host) (o : List Out) (hs : step h b = some (h', o))
+    (he : Out.loopError ∈ o) : ∃ s q i, b = .tcFire s q i ∧ h.tcs[i]? = some 0 := by
+  have hsend : ∀ n, Out.loopError ∉ gated h (List.replicate n Out.send) :=
+    fun n => not_loopError_gated h _ (not_loopError_replicate n _ (by intro hh; cases hh))
+  have hone : ∀ y : Out, y ≠ .loopError → Out.loopError ∉ gated h [y] := by
+    intro y hy
+    exact not_loopError_gated h _ (by simpa using Ne.symm hy)
+  have hbody : ∀ s, Out.loopError ∉ (closeBody h s).2.1 := by
+    intro s hm
+    simp only [closeBody] at hm
+    split at hm
+    · simp at hm
+    · exact hone .goodbye (by intro hh; cases hh) hm
+  cases b <;> simp only [step] at hs <;> (repeat' split at hs) <;>
+    first
+    | (simp at hs; done)
+    | (simp only [Option.some.injEq, Prod.mk.injEq] at hs
+       obtain ⟨_, rfl⟩ := hs
+       first
+       | exact ⟨_, _, _, rfl, by assumption⟩
+       | (exfalso
+          first
+          | (simp at he; done)
+          | exact hsend _ he
+          | exact hbody _ he
+          | exact not_loopError_notify _ _ he
+          | exact hone _ (by intro hh; cases hh) he
+          | (rcases List.mem_append.mp he with hm | hm
+             · exact hsend _ hm
+             · exact not_loopError_notify _ _ hm)
+          | exact not_loopError_gated h _ (by simp) he
+          | exact not_loopError_replicate _ _ (by intro hh; cases hh) he))
+
+/-! ### every close call makes progress, and nobody else moves its program counter -/
+
+theorem closes_step (h : Host) (b : Block) (h' : Host) (o : List Out) (hs : step h b = some (h', o)) :
+    h'.closes = h.closes ∨ (∃ c, h'.closes = h.closes ++ [c]) ∨ (∃ i c, b.closeIndex = some i ∧ h'.closes = h.closes.set i c) := by
+  cases b <;> simp only [step] at hs <;> (repeat' split at hs) <;>
+    first
+    | (simp at hs; done)
+    | (simp only [Option.some.injEq, Prod.mk.injEq] at hs
+       obtain ⟨rfl, _⟩ := hs
+       first
+       | exact Or.inl rfl
+       | exact Or.inr (Or.inl ⟨_, rfl⟩)
+       | exact Or.inr (Or.inr ⟨_, _, rfl, rfl⟩)
+       | (simp only [closeBody, Host.setStage]
+          first
+          | exact Or.inl rfl
+          | exact Or.inr (Or.inl ⟨_, rfl⟩)
+          | exact Or.inr (Or.inr ⟨_, _, rfl, rfl⟩)))
+
+/-- blocks that are not steps of close `k` leave its program counter alone -/
+theorem closes_frame (h : Host) (b : Block) (h' : Host) (o : List Out) (hs : step h b = some (h', o)) (k : Nat)
+    (hb : b.closeIndex ≠ some k) (hk : k < h.closes.length) : h'.closes[k]? = h.closes[k]? := by
+  rcases closes_step h b h' o hs with e | ⟨c, e⟩ | ⟨i, c, hi, e⟩
+  · rw [e]
+  · rw [e, List.getElem?_append_left hk]
+  · rw [e]
+    have : i ≠ k := fun hh => hb (hh ▸ hi)
+    simp [this]
+
+/-- **progress**: whatever the rest of the host is doing, the next block of a close call that has not ended is
+enabled, and it moves that call strictly closer to its end -/
+theorem close_progress (h : Host) (k : Nat) (c : Close) (b : Block) (hc : h.closes[k]? = some c) (hn : c.next k = some b) :
+    ∃ h' o c', step h b = some (h', o) ∧ h'.closes[k]? = some c' ∧ c'.rank < c.rank := by
+  obtain ⟨hlt, hget⟩ := List.getElem?_eq_some_iff.mp hc
+  obtain ⟨sync, st⟩ := c
+  cases st with
+  | waitingStart =>
+    cases sync with
+    | true => simp [Close.next] at hn
+    | false =>
+      simp only [Close.next, Option.some.injEq] at hn
+      subst hn
+      refine ⟨(closeBody h false).1.setStage k false (closeBody h false).2.2, (closeBody h false).2.1,
+        ⟨false, (closeBody h false).2.2⟩, by simp [step, hc], by simp [Host.setStage, closeBody, hlt], ?_⟩
+      simp only [closeBody, Close.rank, moreGoodbyes, register_broadcasts]
+      split <;> omega
+  | unregistering n =>
+    cases n with
+    | zero =>
+      cases sync with
+      | true =>
+        simp only [Close.next, Option.some.injEq] at hn
+        subst hn
+        exact ⟨{ h.setStage k true .doneSet with done := true }, [], ⟨true, .doneSet⟩, by simp [step, hc],
+          by simp [Host.setStage, hlt], by simp [Close.rank]⟩
+      | false =>
+        simp only [Close.next, Option.some.injEq] at hn
+        subst hn
+        exact ⟨{ h.setStage k false .shutdown with done := true, running := false, transportsClosed := transportsAfterShutdown h.transportsClosed },
+          [], ⟨false, .shutdown⟩,
+          by simp [step, hc], by simp [Host.setStage, hlt], by simp [Close.rank]⟩
+    | succ m =>
+      simp only [Close.next, Option.some.injEq] at hn
+      subst hn
+      exact ⟨h.setStage k sync (.unregistering m), gated h [.goodbye], ⟨sync, .unregistering m⟩, by simp [step, hc],
+        by simp [Host.setStage, hlt], by simp [Close.rank]⟩
+  | doneSet =>
+    cases sync with
+    | true =>
+      simp only [Close.next, Option.some.injEq] at hn
+      subst hn
+      exact ⟨{ h.setStage k true .shutdown with running := false, transportsClosed := transportsAfterShutdown h.transportsClosed },
+        [], ⟨true, .shutdown⟩, by simp [step, hc], by simp [Host.setStage, hlt], by simp [Close.rank]⟩
+    | false => simp [Close.next] at hn
+  | shutdown =>
+    have hn' : b = .closeFinish k := by cases sync <;> simpa [Close.next] using hn.symm
+    subst hn'
+    exact ⟨{ h.setStage k sync .returned with cleanupArmed := cleanupAfterClose h.cleanupArmed }, [], ⟨sync, .returned⟩,
+      by simp [step, hc], by simp [Host.setStage, hlt], by simp [Close.rank]⟩
+  | returned => cases sync <;> simp [Close.next] at hn
+  | aborted => cases sync <;> simp [Close.next] at hn
 
 end Zc.Shutdown
